@@ -71,7 +71,7 @@ CHECKS = {
     ),
     "C16": (
         "explicit-state BFS over programs incl. doomed/identity leaves; Diagnostics with and without a truthful executor vs reference emptiness",
-        "Every program up to the depth bound over alphabets extended with doomed and join-identity leaves, trivially false predicates and zero-limit slices: Diagnostics.run without executor must never doom a relation the reference says has rows; with an executor that really executes the sub-relation it must be exact; every doomed verdict must carry a message.",
+        "Every program up to the depth bound over alphabets extended with doomed and join-identity leaves, trivially false predicates, constant non-literal predicates and zero-limit slices: Diagnostics.run without executor must never doom a relation the reference says has rows; with an executor that really executes the sub-relation it must be exact; every doomed verdict must carry a message.",
         "Trusted: reference evaluator for emptiness; single-engine trees; programs with undetermined emptiness are skipped and counted.",
         "DESIGN.md 3 C16",
     ),
@@ -89,13 +89,13 @@ CHECKS = {
     ),
     "C20": (
         "explicit-state BFS over well-typed states x exhaustive menu of single ill-typing edits x all preferred-engine flag combinations",
-        "At every well-typed state of the iteration, SQL and three-engine explorations every edit of the ill-typing menu is issued plain and through every preferred-engine flag combination; edits that the reference typing finds ill-formed for that target must raise the documented class, return nothing and leave all existing relations' fingerprints unchanged.",
+        "At every well-typed state of the iteration, SQL and three-engine explorations every edit of the ill-typing menu (incl. joins issued through Join.apply directly and zero-step slices) is issued plain and through every preferred-engine flag combination; edits that the reference typing finds ill-formed for that target must raise the documented class, return nothing and leave all existing relations' fingerprints unchanged.",
         "Trusted: reference typing (which edits are ill-formed, which classes are allowed).",
         "DESIGN.md 3 C20",
     ),
     "C07": (
         "explicit-state BFS over three-engine programs; real row-moving Processor; histories of repeated process() on shared nodes",
-        "Every program over a three-engine alphabet (transfers every direction, materializations at every position, chains with statically empty branches, joins after transfer back to SQL) up to the depth bound is processed three times by a Processor subclass that really moves rows between SQLite and the iteration engine; result rows vs reference, input-tree fingerprint before/after, result columns/engine, hook log discipline and at-most-once materialization are judged on every call; sibling trees share their parent's nodes.",
+        "Every program over a three-engine alphabet (transfers every direction, materializations at every position, chains with statically empty branches, joins after transfer back to SQL) up to the depth bound is processed three times by a Processor subclass that really moves rows between SQLite and the iteration engine; result rows vs reference, input-tree fingerprint before/after, result columns/engine, hook log discipline and at-most-once materialization are judged on every call; sibling trees share their parent's nodes; a twin sub-space chains leaves that compare equal but hold other rows.",
         "Trusted: RealProcessor harness (vf/realize.py), reference evaluator, SQLite.",
         "DESIGN.md 3 C07",
     ),
@@ -107,7 +107,7 @@ CHECKS = {
     ),
     "C15": (
         "explicit-state BFS over transfer/materialization chains among three engines with every preferred-engine call on top; identity of locked nodes",
-        "Every program over transfers among three engines, two materializations and a few operations up to the base depth, with every menu operation under every preferred-engine option applied on top: self-transfers return the identical object, transfer chains keep Processor-evaluated content in the requested engine, materialized() of locked relations adds no node, and every locked node of the input tree that reappears (by equality or by name) in the output is the identical object with the identical upstream; parents are processed first so payload sharing is observable.",
+        "Every program over transfers among three engines, two materializations and a few operations up to the base depth, with every menu operation under every preferred-engine option applied on top: self-transfers return the identical object, transfer chains keep Processor-evaluated content in the requested engine, materialized() of locked relations adds no node, and every locked node of the input tree that reappears (by equality or by name) in the output is the identical object with the identical upstream; parents are processed first so payload sharing is observable; a second sub-space starts from statically empty sources and never runs a Processor (locks without payloads); a third brings twin leaves (equal to a sibling, other rows) next to their siblings.",
         "Trusted: library dataclass equality vs Python identity; RealProcessor; reference evaluator.",
         "DESIGN.md 3 C15",
     ),
